@@ -1493,7 +1493,13 @@ func (p *pinner) rebuildIndexes(ctx context.Context) error {
 		}
 		checkedCount++
 		if checkedCount%syncRepairFrequency == 0 {
-			p.flushPins(ctx, true)
+			// Only sync the repairs made so far.  The dirty flag must stay
+			// set until every pin has been checked: clearing it here would
+			// let a later New skip the rebuild although the remaining pins
+			// were never repaired.
+			if err := p.dstore.Sync(ctx, ds.NewKey(basePath)); err != nil {
+				log.Errorf("cannot sync pin state: %v", err)
+			}
 		}
 	}
 
